@@ -248,7 +248,7 @@ RULES = {
     "sub-problems identical except the split domain, ordered partition into non-empty ranges) and semantic oracle (each sub-problem enumerates within the progress budget, pairwise disjoint, union = brute-force solution set); "
     "non-trivial = k >= 2 and (k does not divide the size, or k > size, or the variable shares its domain); distinct by SHA-1 of the canonical case",
 }
-EXAMPLES = {"C11": {"quick": (800, 300, 12), "thorough": (8000, 3000, 150)}, "C12": {"quick": (700, 250, 0), "thorough": (7000, 2500, 0)}}
+EXAMPLES = {"C11": {"quick": (1400, 500, 12), "thorough": (14000, 5000, 150)}, "C12": {"quick": (1400, 500, 0), "thorough": (14000, 5000, 0)}}
 
 
 def jobs(prop, tier):
